@@ -1,3 +1,5 @@
+//go:build !cliharness
+
 package main
 
 import (
@@ -648,7 +650,7 @@ func streamLex() {
 	s, done := openStream("lex")
 	defer done()
 	// all strings over a small alphabet up to a length bound
-	alphabet := []string{"C", "b", "#", "m", "7", "_", "/", "[", "]", "{", "}", "=", ",", ";", " ", "\n", "R", "1", "♯"}
+	alphabet := []string{"C", "b", "#", "m", "7", "_", "/", "[", "]", "{", "}", "=", ",", ";", " ", "\n", "R", "1", "♯", "１"}
 	maxLen := pick(3, 4)
 	var rec func(prefix string, n int)
 	rec = func(prefix string, n int) {
